@@ -230,6 +230,8 @@ def run(ctx):
             ctx.case(digest(name, t, target) if removed else None,
                      {"text": name, "target": target, "guards_false": removed} if removed and name.startswith("shipped") else None)
             src, ident = name.split(":", 1)
+            if worker.timed_out(ctx, rep):
+                continue
             if "ok" not in rep:
                 key = "C03/%s/error/%s" % (src, ident if src != "gen" else "generated")
                 agg.setdefault(key, []).append((target, "directive.Run failed: %r" % (rep,), t))
